@@ -5,7 +5,7 @@
    so every theorem holds for all of Unicode. *)
 From Coq Require Import NArith List.
 From GV Require Import Base.Result Gen.TokenTypes Gen.Tokens Model.Lexer Spec.LexSpec
-  Proofs.C13.LexRun Proofs.C13.LexPosRun.
+  Proofs.C13.LexRun Proofs.C13.LexPosRun Proofs.C13.LexOp.
 Import ListNotations.
 Local Open Scope N_scope.
 
@@ -65,6 +65,21 @@ Proof.
   vm_compute in H. discriminate.
 Qed.
 Print Assumptions C13_K1_refuted.
+
+(* (d) operators are classified by longest match against the generated operator table
+   (Gen.Tokens.operator_spellings, re-extracted from Lexer::new on every run): a token
+   whose type is an operator type is spelled exactly as the table says, and no longer
+   spelling of the table is a prefix of the input at that point *)
+Theorem C13_longest_match : forall un ua s ts,
+  lex un ua s = Ok ts ->
+  forall pre t post, ts = pre ++ t :: post ->
+    (exists sp, In (sp, tok_type t) operator_spellings) ->
+    In (tok_text t, tok_type t) operator_spellings /\
+    forall sp ty, In (sp, ty) operator_spellings ->
+      (length (tok_text t) < length sp)%nat ->
+      ~ (exists r, tok_text t ++ concat (map tok_text post) = sp ++ r).
+Proof. exact lex_longest_match. Qed.
+Print Assumptions C13_longest_match.
 
 (* non-vacuity: lex succeeds on inputs that exercise the repaired paths *)
 Example C13_ex_runs : forall un ua,
